@@ -135,6 +135,7 @@ func runC03(c *Ctx) {
 				rq.CutInstrs[upd] = true
 				c.Check(!rq.After(set)[r], fk(f, "write-implies-refresh"), r, "after the parameter write every success return passes UpdateMinimumPowerInTopN")
 			}
+			c.RequestProcessed(f, "PowerShapingParameters", fk(f, "request-is-written"), set)
 		}
 	}
 	if f := c.Fn("pk.Keeper.UpdateMinimumPowerInTopN"); f != nil {
